@@ -546,3 +546,87 @@ brk("c19_prefix_escaped_once", [E(f"{SMx}.log", lambda n: isinstance(n, ast.IfEx
 ben("c08_early_exit_without_disposables", [E("context.disposables.Disposables.__aexit__", lambda n: isinstance(n, ast.AnnAssign) and "gather" in U(n), before("if not self._disposables:" + NL + "    return"))], ["C08", "C01", "C02"])
 ben("c10_record_handler_reraises_non_exception", [E("context.metrics.MetricsContext.record", handler("Exception"), lambda s: s.replace("except Exception as exc:", "except BaseException as exc:" + "\n" + " " * 12 + "if not isinstance(exc, Exception):" + "\n" + " " * 16 + "raise", 1))], ["C10", "C14"])
 ben("c06_reraise_only_wrapper", [E("context.tasks.TaskGroupContext.__aenter__", stmt("await self._group.__aenter__()"), lambda s: "try:" + NL + "    " + s + NL + "except BaseException:" + NL + "    raise")], ["C06", "C07", "C02"])
+
+# =============================================================================================== round 8 additions
+_INIT_IF = "provided = await disposable.__aenter__()" + NL + "if {test}:" + NL + "    return ()" + NL + "if isinstance(provided, State):" + NL + "    return (provided,)" + NL + "return provided"
+brk("c01_falsy_state_from_disposable_dropped", [E(f"{DSP}._initialize", lambda n: isinstance(n, ast.Match), to(_INIT_IF.format(test="not provided")))], {"C01": ["C01.12"], "C08": ["C08.7"]})
+ben("c08_initialize_if_chain", [E(f"{DSP}._initialize", lambda n: isinstance(n, ast.Match), to(_INIT_IF.format(test="provided is None")))], ["C01", "C08"])
+_ALIAS_HELPER = (
+    "def _alias_type_parameters(alias, /, arguments, type_parameters):" + NL + "    parameters = dict(type_parameters)" + NL + "    for parameter, argument in zip(alias.__type_params__, arguments, strict=False):" + NL
+    + "        if isinstance(argument, TypeVar):" + NL + "            argument = type_parameters.get(argument.__name__, argument.__bound__ or Any)" + NL + "        {store}" + NL + "    return parameters" + NL + NL
+)
+_ALIAS_CALL = lambda n: isinstance(n, ast.Dict) and "alias.__type_params__" in U(n) and "**type_parameters" in U(n)  # noqa: E731
+_RES_DEF = lambda n: isinstance(n, ast.FunctionDef) and n.name == "_resolve_attribute_annotation"  # noqa: E731
+brk("c05_alias_bindings_added_with_setdefault", [E("mod:state.attributes", _RES_DEF, before(_ALIAS_HELPER.format(store="parameters.setdefault(parameter.__name__, argument)"))), E("state.attributes._resolve_attribute_annotation", _ALIAS_CALL, to("_alias_type_parameters(alias, arguments=get_args(generic_alias), type_parameters=type_parameters)"))], {"C05": ["C05.13"]})
+ben("c05_alias_bindings_stored_by_helper", [E("mod:state.attributes", _RES_DEF, before(_ALIAS_HELPER.format(store="parameters[parameter.__name__] = argument"))), E("state.attributes._resolve_attribute_annotation", _ALIAS_CALL, to("_alias_type_parameters(alias, arguments=get_args(generic_alias), type_parameters=type_parameters)"))], ["C05", "C04"])
+for _c in ("_SyncCache", "_AsyncCache"):
+    brk(f"c12_store_per_receiver_{_c}", [
+        E(f"helpers.caching.{_c}.__init__", stmt("self._limit"), after("self._bound: dict[int, OrderedDict[Hashable, Any]] = {}")),
+        E(f"helpers.caching.{_c}.__method_call__", lambda n: isinstance(n, ast.Assign) and "_CacheEntry(" in U(n) and "self._cached[key]" in U(n), lambda s: s.replace("self._cached[key]", "self._bound.setdefault(id(__method_self), OrderedDict())[key]", 1)),
+    ], {"C12": ["C12.7"]} if _c == "_SyncCache" else {"C12": ["C12.7"], "C13": ["C13.5"]})
+brk("c19_inheritance_through_live_parent_only", [
+    E(f"{SMx}.__init__", stmt("self.trace_id"), to("self._parent: Self | None = parent if parent and not parent._completed.done() else None" + NL + "self.trace_id: str = trace_id or (self._parent.trace_id if self._parent else uuid4().hex)")),
+    E(f"{SMx}.__init__", stmt("self._logger:"), to("self._logger: Logger = logger or (self._parent._logger if self._parent else getLogger(name=scope))")),
+    E(f"{SMx}.__init__", stmt("self._parent: Self | None = parent if parent else None"), PASS, nth=-1),
+    E("context.metrics.MetricsContext.scope", lambda n: isinstance(n, ast.Return) and "current.trace_id" in U(n), lambda s: s.replace("trace_id or current.trace_id", "trace_id").replace("logger or current._logger", "logger")),
+], {"C19": ["C19.3", "C19.4"]})
+_CONST_FACTORY = (
+    "def _prepare_validator_of_constant(constant, /):" + NL + "    def prepare_validator(annotation, /):" + NL + "        def validator(value):" + NL + "            if value {op} constant:" + NL + "                return value" + NL
+    + "            else:" + NL + "                raise TypeError('not matching')" + NL + "        return validator" + NL + "    return prepare_validator" + NL + NL
+)
+_VAL_TABLE = lambda n: isinstance(n, ast.AnnAssign) and U(n.target) == "VALIDATORS"  # noqa: E731
+brk("c20_missing_validator_made_by_equality_factory", [E("mod:state.validation", _VAL_TABLE, lambda s: _CONST_FACTORY.format(op="==").replace(NL, "\n") + s.replace("Missing: _prepare_validator_of_missing", "Missing: _prepare_validator_of_constant(MISSING)"))], {"C20": ["C20.4"]})
+ben("c20_missing_validator_made_by_identity_factory", [E("mod:state.validation", _VAL_TABLE, lambda s: _CONST_FACTORY.format(op="is").replace(NL, "\n") + s.replace("Missing: _prepare_validator_of_missing", "Missing: _prepare_validator_of_constant(MISSING)"))], ["C20", "C05", "C04"])
+# representation changes the normaliser reads back
+_CURSOR = (
+    "scope: ScopeMetrics = self" + NL + "while True:" + NL + "    assert not scope._completed.done()" + NL + "    if not scope._finished:" + NL + "        return" + NL + "    if any(not nested.is_completed for nested in scope._nested):" + NL + "        return" + NL
+    + "    scope._completed.set_result(monotonic() - scope._timestamp)" + NL + "    parent: ScopeMetrics | None = scope._parent" + NL + "    if parent is None{guard}:" + NL + "        return" + NL + "    scope = parent"
+)
+_CIA_DEF = lambda n: isinstance(n, ast.FunctionDef) and n.name == "_complete_if_able"  # noqa: E731
+
+
+def _cia_body(body: str):
+    def rewrite(s: str) -> str:
+        head = s[: s.index("assert")]
+        return head + body.replace(NL, NL + " " * 4)
+
+    return rewrite
+
+
+ben("c09_complete_if_able_as_cursor_loop", [E(f"{SMx}._complete_if_able", _CIA_DEF, _cia_body(_CURSOR.format(guard=" or parent._completed.done()")))], ["C09", "C02", "C10"])
+brk("c09_cursor_loop_completes_completed_parent", [E(f"{SMx}._complete_if_able", _CIA_DEF, _cia_body(_CURSOR.format(guard="")))], {"C09": ["C09.6"], "C02": ["C02.9"]})
+brk("c09_cursor_loop_without_finished_guard", [E(f"{SMx}._complete_if_able", _CIA_DEF, _cia_body(_CURSOR.format(guard=" or parent._completed.done()").replace("    if not scope._finished:" + NL + "        return" + NL, "")))], {"C09": ["C09.2"]})
+_WITH = lambda n: isinstance(n, ast.AsyncWith) and "streaming_context" in U(n.items[0])  # noqa: E731
+_SPELLED = (
+    "await streaming_context.__aenter__()" + NL + "try:" + NL + "    async for result in source(*args, **kwargs):" + NL + "        yield result" + NL + "except BaseException as exc:" + NL
+    + "    await streaming_context.__aexit__(type(exc), exc, exc.__traceback__)" + NL + "    raise" + NL + "else:" + NL + "    {normal}"
+)
+ben("c11_stream_scope_spelled_out", [E("context.access.ctx.stream.generator", _WITH, to(_SPELLED.format(normal="await streaming_context.__aexit__(None, None, None)")))], ["C11", "C02", "C09"])
+brk("c11_stream_scope_spelled_out_without_normal_exit", [E("context.access.ctx.stream.generator", _WITH, to(_SPELLED.format(normal="pass")))], {"C11": []})
+ben("c08_walrus_alias_in_scope_exit", [E(f"{SC}.__aexit__", lambda n: isinstance(n, ast.If) and "self._disposables is not None" in U(n.test), lambda s: s.replace("if self._disposables is not None:", "if (disposables := self._disposables) is not None:", 1).replace("await self._disposables.__aexit__", "await disposables.__aexit__", 1))], ["C01", "C02", "C03", "C06", "C08", "C11"])
+for _n in LEVELS_ if (LEVELS_ := ("log_error", "log_info")) else ():
+    ben(f"c19_root_logger_in_a_local_{_n}", [E(f"{MCX}.{_n}", lambda n: isinstance(n, ast.Expr) and U(n).startswith("getLogger().log("), lambda s: "root_logger: Logger = getLogger()" + NL + s.replace("getLogger().log(", "root_logger.log(", 1))], ["C19"])
+ben("c19_prefix_joined_from_tags", [E(f"{SMx}.__init__", stmt("self._logger_prefix"), to("tags: tuple[str, ...] = (self.trace_id, scope, self.identifier) if scope else (self.trace_id, self.identifier)" + NL + "self._logger_prefix: str = ' '.join(f'[{tag}]' for tag in tags)"))], ["C19"])
+brk("c19_prefix_joined_without_identifier", [E(f"{SMx}.__init__", stmt("self._logger_prefix"), to("tags: tuple[str, ...] = (self.trace_id, scope) if scope else (self.trace_id,)" + NL + "self._logger_prefix: str = ' '.join(f'[{tag}]' for tag in tags)"))], {"C19": ["C19.5"]})
+ben("c13_result_bound_before_return", [E("helpers.caching._AsyncCache.__call__", lambda n: isinstance(n, ast.Return) and U(n) == "return await shield(task)", to("result: Result = await shield(task)" + NL + "return result"))], ["C12", "C13"])
+for _c in ("_SyncCache", "_AsyncCache"):
+    ben(f"c12_expiration_kept_on_the_object_{_c}", [
+        E(f"helpers.caching.{_c}.__init__", lambda n: isinstance(n, ast.If) and "expiration" in U(n.test), to("self._expiration: float | None = expiration or None")),
+        E(f"helpers.caching.{_c}.__init__", stmt("self._next_expire_time"), PASS),
+        E(f"helpers.caching.{_c}.__get__", lambda n: isinstance(n, ast.FunctionDef), before("def _next_expire_time(self) -> float | None:" + NL + "    if (expiration := self._expiration) is None:" + NL + "        return None" + NL + "    return monotonic() + expiration" + NL)),
+    ], ["C12", "C13"])
+    brk(f"c12_expiration_kept_doubled_{_c}", [
+        E(f"helpers.caching.{_c}.__init__", lambda n: isinstance(n, ast.If) and "expiration" in U(n.test), to("self._expiration: float | None = (expiration * 2) if expiration else None")),
+        E(f"helpers.caching.{_c}.__init__", stmt("self._next_expire_time"), PASS),
+        E(f"helpers.caching.{_c}.__get__", lambda n: isinstance(n, ast.FunctionDef), before("def _next_expire_time(self) -> float | None:" + NL + "    if (expiration := self._expiration) is None:" + NL + "        return None" + NL + "    return monotonic() + expiration" + NL)),
+    ], {"C12": ["C12.5"]} if _c == "_SyncCache" else {"C12": ["C12.5"], "C13": ["C13.6"]})
+ben("c16_callbacks_bound_by_keyword_partial", [
+    E("mod:helpers.timeouted", lambda n: isinstance(n, ast.ClassDef) and n.name == "_AsyncTimeout", before("from functools import partial" + NL + NL + NL + "def _cancel_task(future, /, *, task) -> None:" + NL + "    task.cancel()" + NL + NL)),
+    E(TO, lambda n: isinstance(n, ast.FunctionDef) and n.name == "on_result", PASS),
+    E(TO, stmt("future.add_done_callback(on_result)"), to("future.add_done_callback(partial(_cancel_task, task=task))")),
+], ["C16"])
+brk("c16_keyword_partial_cancels_nothing", [
+    E("mod:helpers.timeouted", lambda n: isinstance(n, ast.ClassDef) and n.name == "_AsyncTimeout", before("from functools import partial" + NL + NL + NL + "def _cancel_task(future, /, *, task) -> None:" + NL + "    future.cancel()" + NL + NL)),
+    E(TO, lambda n: isinstance(n, ast.FunctionDef) and n.name == "on_result", PASS),
+    E(TO, stmt("future.add_done_callback(on_result)"), to("future.add_done_callback(partial(_cancel_task, task=task))")),
+], {"C16": []})
